@@ -267,6 +267,16 @@ def run_case(case, ctx):
             if B is None:
                 st.count("not_judged")
                 return
+            if case["s"] % 2 == 0 and len(pat["elements"]) >= 2:
+                # B larger than A: the substituted atom carries one more atom further out (C-H -> C-O-H), so B reaches beyond A
+                j = [i for i, (x, y) in enumerate(zip(pat["elements"], B["elements"])) if x != y][0]
+                pp = np.asarray(B["positions"], float)
+                out_dir = pp[j] - np.delete(pp, j, axis=0).mean(0)
+                if np.linalg.norm(out_dir) > 0.3:
+                    extra = pp[j] + out_dir / np.linalg.norm(out_dir) * float(rng.uniform(0.9, 1.3))
+                    if np.linalg.norm(pp - extra, axis=1).min() > 0.7:
+                        B = dict(B, elements=list(B["elements"]) + ["Te"], positions=np.vstack([pp, extra]))
+                        st.count("two_step_histories_with_a_larger_B")
             tol = 1e-6 if len(pat["elements"]) == 1 else 2 * c05.bound(atol, pat["positions"], B["positions"])
             frac = [1.0, 0.5, 0.67][(case["s"] // 7) % 3]
             n = check_aba(ctx, st, S, patterns.to_atoms(pat), patterns.to_atoms(B), pat, B, atol, case["s"], w, tol, fraction=frac, sample=["reversed", "real"][case["s"] % 2])
@@ -302,6 +312,8 @@ def requirements(stats, tier):
     need = []
     if stats.get("self_replacements") < (100 if tier == "quick" else 12000) or stats.get("restorations_checked") < (100 if tier == "quick" else 12000):
         need.append("self replacements %d, restorations %d" % (stats.get("self_replacements"), stats.get("restorations_checked")))
+    if stats.get("two_step_histories_with_a_larger_B") < (20 if tier == "quick" else 2000):
+        need.append("two-step histories in which B has one atom more than A: %d" % stats.get("two_step_histories_with_a_larger_B"))
     if stats.get("two_step_histories_on_exact_copies_far_from_the_origin") < (30 if tier == "quick" else 1500):
         need.append("two-step histories on exact copies far from the origin: %d" % stats.get("two_step_histories_on_exact_copies_far_from_the_origin"))
     if stats.get("structures_with_a_mirror_image_site") < (10 if tier == "quick" else 1000):
